@@ -96,44 +96,47 @@ def _run_diff(sh, rec):
             lo = max(v.min_side, 1)
             shape = tuple(int(x) for x in (rng0.integers(lo + 2, lo + 9, size=v.dim)))
             base_seed = int(rng0.integers(1 << 30))
-            outs = {}
-            for nt in threads:
-                rng = np.random.default_rng(base_seed)  # identical inputs for every thread count
-                A = audit.Arrays(rng, real_t, "contig")
-                try:
-                    if v.needs_grid:
-                        K, ctx = v.build_for(shape, real_t, nt, A, rng)
-                        case = v.make(K, A, shape, real_t, rng, ctx)
-                    else:
-                        K = v.build(real_t, nt)
-                        case = v.make(K, A, shape, real_t, rng)
-                    # outputs: replace NaN sentinels by finite garbage so that value comparison is meaningful
-                    for k, role in case.roles.items():
-                        if role == "out":
-                            a = case.kw[k]
-                            a[...] = (np.random.default_rng(base_seed + 1).standard_normal(a.shape)).astype(a.dtype) if a.dtype.kind != "c" else 0
-                    case.fn(**case.kw)
-                except Exception as e:
-                    if "penalise_field_boundary" in vname and vname.endswith("_w1") and isinstance(e, ValueError):
-                        rec.violation("boundary-damping-width1-raises", f"{vname}: {e}", {"variant": vname})
-                    else:
-                        rec.violation(f"{vname}-raises", f"{type(e).__name__}: {e} threads={nt}", {"variant": vname})
-                    outs = None
-                    break
-                outs[nt] = {k: np.array(case.kw[k], copy=True) for k, role in case.roles.items() if role in ("out", "inout")}
-            if not outs:
-                rec.case(None)
-                continue
-            ref = outs[threads[0]]
-            same = True
-            for nt in threads[1:]:
-                for k in ref:
-                    if not util.bits_equal(ref[k], outs[nt][k]):
-                        same = False
-                        rec.violation(f"thread-count-dependent:{vname}", f"output '{k}' differs bitwise between {threads[0]} and {nt} threads, dtype={d} shape={shape}",
-                                      {"variant": vname, "threads": (threads[0], nt), "shape": shape})
-            rec.count("thread_differentials")
-            rec.case((vname, d, "threads" + "/".join(map(str, threads))), sample={"variant": vname, "dtype": d, "shape": shape, "threads": threads, "bitwise_equal": same})
+            # both orientations of the grid (rows < columns and rows > columns): with 16 threads and 3..11 rows the team is larger than
+            # the outer loop in one of them; a sweep re-arranged for that case exists in one orientation only
+            for shape in ([shape, shape[::-1]] if shape != shape[::-1] else [shape]):
+                outs = {}
+                for nt in threads:
+                    rng = np.random.default_rng(base_seed)  # identical inputs for every thread count
+                    A = audit.Arrays(rng, real_t, "contig")
+                    try:
+                        if v.needs_grid:
+                            K, ctx = v.build_for(shape, real_t, nt, A, rng)
+                            case = v.make(K, A, shape, real_t, rng, ctx)
+                        else:
+                            K = v.build(real_t, nt)
+                            case = v.make(K, A, shape, real_t, rng)
+                        # outputs: replace NaN sentinels by finite garbage so that value comparison is meaningful
+                        for k, role in case.roles.items():
+                            if role == "out":
+                                a = case.kw[k]
+                                a[...] = (np.random.default_rng(base_seed + 1).standard_normal(a.shape)).astype(a.dtype) if a.dtype.kind != "c" else 0
+                        case.fn(**case.kw)
+                    except Exception as e:
+                        if "penalise_field_boundary" in vname and vname.endswith("_w1") and isinstance(e, ValueError):
+                            rec.violation("boundary-damping-width1-raises", f"{vname}: {e}", {"variant": vname})
+                        else:
+                            rec.violation(f"{vname}-raises", f"{type(e).__name__}: {e} threads={nt}", {"variant": vname})
+                        outs = None
+                        break
+                    outs[nt] = {k: np.array(case.kw[k], copy=True) for k, role in case.roles.items() if role in ("out", "inout")}
+                if not outs:
+                    rec.case(None)
+                    continue
+                ref = outs[threads[0]]
+                same = True
+                for nt in threads[1:]:
+                    for k in ref:
+                        if not util.bits_equal(ref[k], outs[nt][k]):
+                            same = False
+                            rec.violation(f"thread-count-dependent:{vname}", f"output '{k}' differs bitwise between {threads[0]} and {nt} threads, dtype={d} shape={shape}",
+                                          {"variant": vname, "threads": (threads[0], nt), "shape": shape})
+                rec.count("thread_differentials")
+                rec.case((vname, d, "threads" + "/".join(map(str, threads))), sample={"variant": vname, "dtype": d, "shape": shape, "threads": threads, "bitwise_equal": same})
 
 
 def _run_sim(sh, rec):
